@@ -39,6 +39,7 @@ Inductive rstep := RGet (block : bool) (timeout : option Z) | RAppend.   (* log 
 Inductive wstep := WsGet (block : bool) | WsNoneBreak | WsPlay | WsPut (block : bool).
 Inductive epi := EpiClose | EpiJoinThread | EpiShutdownWait.    (* games.close(); games.join_thread(); shutdown.wait() *)
 Inductive place := InTry | InFinally.
+Inductive exc_class := ExcKeyboardInterrupt | ExcSystemExit | ExcBaseException.
 Inductive join_kind := JoinDeadline | JoinForever.
     (* JoinDeadline: deadline = time.monotonic() + STOP_TIMEOUT; p.join(timeout=max(0.0, deadline - time.monotonic()));
        if p.is_alive(): p.kill(); p.join()          JoinForever: p.join() *)
@@ -66,7 +67,11 @@ Record workers_ir_t := mkIR {
   ir_epilogue : list epi;
   ir_epilogue_place : place;
   ir_catches_exception : bool;         (* except Exception around run_job and (if InTry) the epilogue *)
-  ir_exit_status : Z                   (* sys.exit(k) in that handler; 0 if the handler falls through *)
+  ir_exit_status : Z;                  (* sys.exit(k) in that handler; 0 if the handler falls through *)
+  ir_other_handlers : list (exc_class * Z)
+      (* further except clauses of the same try with the exit status they lead to (pass / fall through = 0,
+         sys.exit(k) = k, bare raise = 1).  A BaseException no clause catches leaves entrypoint;
+         multiprocessing prints the traceback and the process exits with status 1. *)
 }.'''
 
 
@@ -543,8 +548,8 @@ class Translator:
         if len(tries) != 1 or body[-1] is not tries[0]:
             _fail(fn, "expected one try statement at the end of entrypoint")
         t = tries[0]
-        if t.orelse or len(t.handlers) != 1:
-            _fail(t, "expected exactly one except clause")
+        if t.orelse or not t.handlers:
+            _fail(t, "expected except clauses and no else")
         EPI = {f"{job}.games.close": "EpiClose", f"{job}.games.join_thread": "EpiJoinThread", f"{job}.shutdown.wait": "EpiShutdownWait"}
 
         def epilogue(stmts):
@@ -566,20 +571,38 @@ class Translator:
             _fail(t, "epilogue both inside the try and in finally")
         self.ir["epilogue"] = in_try or in_fin
         self.ir["epilogue_place"] = "InFinally" if in_fin else "InTry"
-        h = t.handlers[0]
-        self.ir["catches_exception"] = _attr_chain(h.type) == "Exception"
-        if not self.ir["catches_exception"]:
-            _fail(h, "expected except Exception")
-        status = 0
-        for i, s in enumerate(h.body):
-            if _expr_call(s, "print") is not None or _expr_call(s, "traceback.print_exc") is not None:
-                continue
-            c = _expr_call(s, "sys.exit")
-            if c is not None and i == len(h.body) - 1 and len(c.args) == 1 and not c.keywords:
-                status = _const(c.args[0], int)
-                continue
-            _fail(s, "unsupported statement in the exception handler")
-        self.ir["exit_status"] = status
+        OTHER = {"KeyboardInterrupt": "ExcKeyboardInterrupt", "SystemExit": "ExcSystemExit", "BaseException": "ExcBaseException"}
+
+        def handler_status(h):
+            status = 0
+            for i, s in enumerate(h.body):
+                if isinstance(s, ast.Pass) or _expr_call(s, "print") is not None or _expr_call(s, "traceback.print_exc") is not None:
+                    continue
+                last = i == len(h.body) - 1
+                c = _expr_call(s, "sys.exit")
+                if c is not None and last and len(c.args) == 1 and not c.keywords:
+                    status = _const(c.args[0], int)
+                    continue
+                if isinstance(s, ast.Raise) and s.exc is None and last:
+                    status = 1
+                    continue
+                _fail(s, "unsupported statement in an exception handler")
+            return status
+
+        main, others = [], []
+        for h in t.handlers:
+            cls = _attr_chain(h.type)
+            if cls == "Exception":
+                main.append(handler_status(h))
+            elif cls in OTHER:
+                others.append((OTHER[cls], handler_status(h)))
+            else:
+                _fail(h, "unsupported exception class in entrypoint")
+        if len(main) != 1:
+            _fail(t, "expected exactly one `except Exception` clause")
+        self.ir["catches_exception"] = True
+        self.ir["exit_status"] = main[0]
+        self.ir["other_handlers"] = others
 
     def translate(self):
         self.post_init()
@@ -632,6 +655,7 @@ def ir_to_coq(ir):
         ("ir_epilogue_place", ir["epilogue_place"]),
         ("ir_catches_exception", _b(ir["catches_exception"])),
         ("ir_exit_status", _z(ir["exit_status"])),
+        ("ir_other_handlers", "[" + "; ".join(f"({c}, {_z(k)})" for c, k in ir["other_handlers"]) + "]"),
     ]
     return "{|\n  " + ";\n  ".join(f"{k} := {v}" for k, v in f) + "\n|}"
 
@@ -645,7 +669,7 @@ STUB_IR = ("{|\n  ir_spawn := false; ir_cmd_bound := (0, 0)%nat; ir_games_bound 
            "  ir_on_full := FullContinue; ir_recv_body := []; ir_exit_test := ExitNotIn []; ir_raise_on_bad := false;\n"
            "  ir_kill_all_and_reraise := false; ir_returns_logs := false; ir_stop := []; ir_pmg_finally_stop := false;\n"
            "  ir_factory_first := false; ir_worker_loop := []; ir_epilogue := []; ir_epilogue_place := InFinally;\n"
-           "  ir_catches_exception := false; ir_exit_status := 0\n|}")
+           "  ir_catches_exception := false; ir_exit_status := 0; ir_other_handlers := []\n|}")
 
 
 def translate(repo=None):
